@@ -124,14 +124,14 @@ def tie(ctx):
                 regions = [{"gi": gi, "name": reg, "a": rng.start, "b": rng.end} for gi, g in enumerate(gene.regions) for reg, rng in g.items()]
                 inp = {"gene_yaml": y, "genome": genome, "cn_region": [cnr.start, cnr.end], "clean": clean}
 
-                def run(sample_reads, tag, profile_path=pbam, use_cnr=True):
+                def run(sample_reads, tag, profile_path=pbam, use_cnr=True, params=None):
                     # every variant of a case is a file called `sample.bam` in a directory of its own: the same sample
                     # name (and the same neutral region) must not make one file stand in for another
                     os.makedirs(os.path.join(d, f"s{k}_{tag}"), exist_ok=True)
                     sb = os.path.join(d, f"s{k}_{tag}", "sample.bam")
                     write(sb, sample_reads, gene)
                     try:
-                        prof = Profile.load(gene, profile_path, cnr if use_cnr else None)
+                        prof = Profile.load(gene, profile_path, cnr if use_cnr else None, **(params or {}))
                         smp = Sample(gene, prof, sb)
                         return region_values(smp, gene), None
                     except AldyException as e:
@@ -172,6 +172,18 @@ def tie(ctx):
                     bad = [kk2 for kk2 in vals if abs(vals[kk2] * kk - vals_g[kk2]) > 1e-9]
                     if bad:
                         violations.append({"why": f"gene reads x{kk}: region {bad[0]} reads {vals_g[bad[0]]}, expected {vals[bad[0]] * kk}", "input": inp, "signature": "c07:not_linear"})
+                # (3b) far more gene copies than the structure model will ever explain (x12 against the default cn_max of 20), or a
+                # small cn_max given by the user: the normalised depth is a measurement and stays linear in the gene reads
+                if k % 2 == 1:
+                    big, prm = (12, None) if k % 4 == 1 else (kk, {"cn_max": r.choice([2, 3])})
+                    vals_b, err_b = run(g_reads * big + n_reads, "b", params=prm)
+                    metas.append(("gene_only_large", inp, vals_b, err_b, regions))
+                    reqs.append({"op": "normalize", "reads": [to_dread(x) for x in g_reads * big + n_reads], "profile_reads": [to_dread(x) for x in base],
+                                 "regions": regions, "cn_region": [cnr.start, cnr.end]})
+                    if vals is not None and vals_b is not None:
+                        bad = [kk2 for kk2 in vals if abs(vals[kk2] * big - vals_b[kk2]) > 1e-7]
+                        if bad:
+                            violations.append({"why": f"gene reads x{big}{' with ' + str(prm) if prm else ''}: region {bad[0]} reads {vals_b[bad[0]]}, expected {vals[bad[0]] * big}", "input": inp, "signature": "c07:not_linear"})
                 # (4) empty neutral region
                 vals_e, err_e = run(g_reads, "e")
                 metas.append(("empty_neutral", inp, vals_e, err_e, regions))
